@@ -327,7 +327,11 @@ func GenSchema(r *Rng) *GSchema {
 	}
 	for i, in := range inputs {
 		sc := map[string]bool{}
-		for j, m := 0, r.Range(1, 5); j < m; j++ {
+		nfields := r.Range(1, 5)
+		if r.Chance(1, 4) {
+			nfields = r.Range(9, 12) // wide input objects (indexed lookups kick in at sizes like these)
+		}
+		for j, m := 0, nfields; j < m; j++ {
 			f := &GField{Name: nm.freshFrom(fieldNamePool, sc), Desc: Pick(r, descPool)}
 			var base string
 			switch r.Weighted([]int{5, 2, 2}) {
@@ -368,6 +372,9 @@ func GenSchema(r *Rng) *GSchema {
 		for _, f := range in.Fields {
 			if r.Chance(1, 3) {
 				f.Default = GenLiteral(r, s, f.Type, 2, false)
+				if f.Type.Elem == nil && f.Type.Name == "Int" && r.Chance(1, 6) {
+					f.Default = "99999999999999999999" // loads; cannot be evaluated as an Int
+				}
 			}
 		}
 	}
@@ -430,13 +437,26 @@ func GenSchema(r *Rng) *GSchema {
 		}
 		return Pick(r, objs).Name
 	}
+	allowDupArg := false // only on root types: they take no part in interface conformance
 	genOutField := func(sc map[string]bool) *GField {
 		f := &GField{Name: nm.freshFrom(fieldNamePool, sc), Desc: Pick(r, descPool)}
 		f.Type = wrap(r, outBases())
 		if r.Chance(1, 3) {
 			asc := map[string]bool{}
-			for j, m := 0, r.Range(1, 3); j < m; j++ {
+			na := r.Range(1, 3)
+			if r.Chance(1, 5) {
+				na = r.Range(4, 5)
+			}
+			for j, m := 0, na; j < m; j++ {
 				f.Args = append(f.Args, genArg(r, s, nm, asc))
+			}
+			if allowDupArg && len(f.Args) >= 3 && r.Chance(1, 3) {
+				// the same argument name twice, with another type (the loader accepts it)
+				d := *f.Args[r.Intn(len(f.Args))]
+				d.Type = wrap(r, Pick(r, builtinScalars))
+				d.Type.NonNull = false
+				d.Default = ""
+				f.Args = append(f.Args, &d)
 			}
 		}
 		if r.Chance(1, 10) {
@@ -542,9 +562,11 @@ func GenSchema(r *Rng) *GSchema {
 		if isRoot {
 			n = r.Range(2, 6)
 		}
+		allowDupArg = isRoot
 		for j := 0; j < n; j++ {
 			o.Fields = append(o.Fields, genOutField(sc))
 		}
+		allowDupArg = false
 		if len(o.Fields) > 2 && r.Chance(1, 6) {
 			o.ExtFrom = r.Range(1, len(o.Fields)-1)
 		}
